@@ -220,7 +220,7 @@ pub fn run(mut chk: Check) -> ! {
         .into();
     chk.assumptions = vec!["reference canonical form / CRC-64-AVRO (refpcf) checked against published vectors at start-up".into()];
     chk.replay_files(dispatch);
-    let n = chk.scale(3000, 200_000);
+    let n = chk.scale(100_000, 1_000_000);
     chk.campaign(CampaignCfg::new("sequence", n).len(0, 700), case_sequence);
     chk.require_label("sequence:fail_then_success", "sequence:sequence", 5.0);
     chk.finish()
